@@ -15,7 +15,7 @@ func lemma_C11_dh_decode(tt uint8, id uint16, present bool, format uint8, at, av
 	}
 }
 
-func lemma_C11_dh_roundtrip(second bool) {
+func lemma_C11_dh_roundtrip(second bool, jt uint8, jid uint16, jp bool, jf uint8, jat, jav uint16) {
 	name, id := DH_1024_BIT_MODP, uint16(2)
 	if second {
 		name, id = DH_2048_BIT_MODP, 14
@@ -25,4 +25,9 @@ func lemma_C11_dh_roundtrip(second bool) {
 	tr := ToTransform(a)
 	verifAssert(tr.TransformType == 4 && tr.TransformID == id && !tr.AttributePresent, "C11/dh/transform-fields")
 	verifAssert(DecodeTransform(tr) == a, "C11/dh/transform-decodes-to-the-same-group")
+	// whatever the caller then does to the transform it was handed, a later conversion
+	// of the same algorithm is unaffected: every conversion returns its own object
+	tr.TransformType, tr.TransformID, tr.AttributePresent, tr.AttributeFormat, tr.AttributeType, tr.AttributeValue = jt, jid, jp, jf, jat, jav
+	tr2 := ToTransform(a)
+	verifAssert(tr2.TransformType == 4 && tr2.TransformID == id && !tr2.AttributePresent && DecodeTransform(tr2) == a, "C11/dh/conversion-unaffected-by-edits-of-earlier-results")
 }
